@@ -22,6 +22,9 @@ PROP = 'C15'
 ALPHA = 'a1 ,":'
 
 
+LONG = 4 * 3600      # worker timeout: the sandbox is shared, a loaded machine is 10x slower
+
+
 def par_for(n):
     """a worker's start-up (building the pyparsing grammar) costs ~5 CPU-seconds"""
     return 8 if n < 3000 else 16
@@ -75,8 +78,8 @@ def effective(ds):
 
 def suite_texts(ctx, exe, texts, suite, line_maxlen=99):
     raws = vlib.run_impl('datafn.text', [[t, len(t) <= line_maxlen] for t in texts],
-                         par=par_for(len(texts)))
-    mouts = vlib.run_model(exe, [[1, t] for t in texts])
+                         par=par_for(len(texts)), timeout=LONG)
+    mouts = vlib.run_model(exe, [[1, t] for t in texts], timeout=LONG)
     nkeys = set()
     for t, raw, mo in zip(texts, raws, mouts):
         if worker_failed(ctx, suite, raw):
@@ -205,7 +208,7 @@ def suite_device(ctx, exe, plan):
                                     for p in DATASETS[name]], 'cur': [0, 0], 'seqs': b})
             owners.append((suite, name, b))
     total = sum(len(b) for _, _, b in owners)
-    raws = vlib.run_impl('datafn.device', cases, par=par_for(total // 20))
+    raws = vlib.run_impl('datafn.device', cases, par=par_for(total // 20), timeout=LONG)
     flat = []
     for (suite, name, b), r in zip(owners, raws):
         if worker_failed(ctx, suite, r):
@@ -215,7 +218,8 @@ def suite_device(ctx, exe, plan):
                        {'suite': suite, 'data': name, 'impl': r}, True)
             continue
         flat += [(suite, name, s, x) for s, x in zip(b, r)]
-    mouts = vlib.run_model(exe, [[4, enc_parts(DATASETS[name]), [0, 0], s] for _, name, s, _ in flat])
+    mouts = vlib.run_model(exe, [[4, enc_parts(DATASETS[name]), [0, 0], s] for _, name, s, _ in flat],
+                           timeout=LONG)
     keys = {}
     counts = {}
     for (suite, name, seq, raw), mo in zip(flat, mouts):
@@ -477,7 +481,7 @@ def abs_pres(p):
 def suite_programs(ctx, exe, cases, suite):
     raws = vlib.run_impl('datafn.program', [{'src': c['src'], 'level': c['level'],
                                              'debug': c['debug']} for c in cases],
-                         par=par_for(len(cases) * 10))
+                         par=par_for(len(cases) * 10), timeout=LONG)
     # one model job per distinct (layout, script)
     jobs = {}
     for c in cases:
